@@ -10,7 +10,14 @@ fn main() {
     let args = Args::parse(&argv[2..]);
     // keep panics of the code under test quiet unless asked
     if args.get("verbose-panics").is_none() {
-        std::panic::set_hook(Box::new(|_| {}));
+        // panics of the code under test are data; panics of the harness itself must be visible
+        std::panic::set_hook(Box::new(|info| {
+            if let Some(l) = info.location() {
+                if l.file().contains("/verif/") || l.file().ends_with("verif.rs") || l.file().starts_with("src/") {
+                    eprintln!("HARNESS PANIC at {}:{}: {}", l.file(), l.line(), info);
+                }
+            }
+        }));
     }
     let code = match argv[1].as_str() {
         "smoke" => drivers::smoke::run(&args),
@@ -18,6 +25,8 @@ fn main() {
         "idmath" => drivers::idmath::run(&args),
         "rt" => drivers::rt::run(&args),
         "mostrecent" => drivers::mostrecent::run(&args),
+        "codec" => drivers::codec::run(&args),
+        "shapes" => drivers::shapes::run(&args),
         "idmath-one" => drivers::idmath::run_one(&args),
         other => {
             eprintln!("unknown driver {other}");
